@@ -135,3 +135,19 @@ M('progress_complete_gt', ['C19'], 'phylib/utils/event.py',
   "if not self._has_completed and self._value >= self._value_max:", "if not self._has_completed and self._value > self._value_max:")
 M('emit_kwargs_single_leak', ['C19'], 'phylib/utils/event.py',
   "        single = kwargs.pop('single', None)", "        single = kwargs.get('single', None)")
+# ---- C20 -----------------------------------------------------------------------------------
+M('dl_retry_removed', ['C20'], 'phylib/io/datasets.py',
+  "        r = _download(url, stream=True)\n        _save_stream(r, output_path)\n        if _check_md5_of_url(output_path, url) is False:\n            raise RuntimeError",
+  "        if _check_md5_of_url(output_path, url) is False:\n            raise RuntimeError")
+M('dl_second_check_truthy', ['C20'], 'phylib/io/datasets.py',
+  "        if _check_md5_of_url(output_path, url) is False:\n            raise RuntimeError",
+  "        if _check_md5_of_url(output_path, url) is None:\n            raise RuntimeError")
+M('dl_precheck_none_skips', ['C20'], 'phylib/io/datasets.py',
+  "        elif checked is True:", "        elif checked is not False and Path(output_path).stat().st_size > 1200:")
+M('dl_status_check_dropped', ['C20'], 'phylib/io/datasets.py',
+  "    if r.status_code != 200:  # pragma: no cover", "    if r.status_code not in (200, 404):  # pragma: no cover")
+M('dl_md5_prefix_compare', ['C20'], 'phylib/io/datasets.py',
+  "    return (_md5(path) == checksum) if checksum else None", "    return (_md5(path)[:1] == checksum[:1]) if checksum else None")
+M('dl_retry_unbounded', ['C20'], 'phylib/io/datasets.py',
+  "    if _check_md5_of_url(output_path, url) is False:\n        logger.debug(\"The checksum doesn't match: retrying the download.\")",
+  "    while _check_md5_of_url(output_path, url) is False:\n        logger.debug(\"The checksum doesn't match: retrying the download.\")")
